@@ -923,6 +923,9 @@ theorem sim_runWith (special : SpecialFn) (mode : Mode) (c : Nat) (sig : Sig) (r
     Sim (Tw fut t) Eq (runWith special mode c sig raw fromScript) (runWith special mode c sig raw fromScript) := by
   unfold runWith
   refine Sim.bind (sim_getConn c) (fun conn => ?_)
+  split
+  · -- refused in subscriber mode: the same pure reply on both sides
+    exact Sim.pure_eq _
   refine sim_getDb_bind _ (fun a b hab => ?_)
   extract_lets gate
   clear_value gate
@@ -1017,6 +1020,8 @@ theorem sim_runScriptCmd (mode : Mode) (c : Nat) (sig : Sig) (raw : List Bytes) 
   have hbody := sim_scriptBody (fut := fut) (t := t) _ sim_special_stub mode c
   unfold runScriptCmd
   refine Sim.bind (sim_getConn c) (fun conn => ?_)
+  split
+  · exact Sim.pure_eq _
   refine sim_getDb_bind _ (fun a b hab => ?_)
   tws_pair hab.apply sig raw, sig.apply raw a, sig.apply raw b
   tws_sim
